@@ -25,6 +25,8 @@ type behaviour struct {
 	Devs    []string
 	Type    string // target type (default S)
 	MinSize bool
+	// ModelInit may switch on check-specific strictness of the reference model.
+	ModelInit func(m *refmodel.Model)
 	// DocFilter may drop documents (return false) that are outside the property's quantifier.
 	DocFilter func(sc *SCase, d *refmodel.Doc, trueVerdict refmodel.Verdict) bool
 	// DocGen overrides the generic document enumeration.
@@ -125,6 +127,9 @@ func runBehaviour(ctx *Ctx, b behaviour) {
 			harnessFail("model for %s: %v", sc.ID, err)
 		}
 		m.MinSized = p.Case.Cfg.MinSizedInts
+		if b.ModelInit != nil {
+			b.ModelInit(m)
+		}
 		ctx.Run.Count("programs_executed", 1)
 		if b.OnProgram != nil {
 			b.OnProgram(sc, p)
